@@ -741,3 +741,45 @@ func (s *Sim) HandOverAllButCurrentTermAcks(n *Node) {
 		s.selfStep(n, 0)
 	}
 }
+
+// LeaveDuringTransfer: an auto-leave joint change is proposed, and before it
+// is applied the leader starts a leadership transfer to a node it cannot
+// reach. While the transfer is pending every proposal is dropped - also the
+// leader's own leave-joint proposal when the change is applied; it has to be
+// made again once the transfer was given up.
+func (s *Sim) LeaveDuringTransfer(p *Profile) {
+	d := s.D
+	s.begin("LeaveDuringTransfer")
+	l := s.leaderNode()
+	if l == nil {
+		return
+	}
+	var others []*Node
+	for _, n := range s.upNodes() {
+		if n.ID != l.ID {
+			others = append(others, n)
+		}
+	}
+	if len(others) < 2 {
+		return
+	}
+	x := others[d.Int(0, len(others)-1, "target")]
+	if l.Opts.DisableConfChangeValidation && !s.confChangeTokenFree(l) {
+		return
+	}
+	cc := s.drawConfChange()
+	if len(cc.GetChanges()) == 0 {
+		return
+	}
+	cc.Transition = pb.ConfChangeTransitionJointImplicit.Enum()
+	s.ProposeConf(l, cc, false)
+	s.Isolate(x)
+	if l.Up {
+		s.TransferLeader(l, x.ID)
+	}
+	s.Stats.inc("macro.leave_during_transfer")
+	s.stabilize(d.Int(3, 8, "rounds"))
+	if d.Int(0, 1, "heal") == 1 {
+		s.Heal()
+	}
+}
